@@ -167,7 +167,43 @@ func checkC07(c *Ctx, r *Report) {
 		r.Check(ok, m.Type+"."+m.Method+"|"+m.Name, fn.Pos(), fmt.Sprintf("accepted (%d success paths examined)", n), fmt.Sprintf("no success path accepts a %d-byte %s (%s): a valid encoding is rejected", m.Len, m.Name, m.Ref))
 	}
 
-	// (b) message checksums
+	checkMessageChecksums(c, r)
+
+	// (c') the wrappers and the message layer never read beyond the datagram: a length field exceeding
+	// the data, or a body shorter than the minimum, cannot be decoded (engine E1 on these decoders)
+	checkLenflowFor(c, r, "wrappers-in-bounds", []string{"V2Session", "V1Session", "Message", "SDR", "FullSensorRecord"})
+
+	// (c) session wrapper windows — in the layout table (BaseLayer.Payload); V1: payload window must honour Length
+	r.Rule("v1-length-honoured", "the v1.5 session wrapper rejects a length field that exceeds the data", 1)
+	if fn := c.Method("pkg/ipmi", "V1Session", "DecodeFromBytes"); fn == nil {
+		r.Lost("ipmi.V1Session.DecodeFromBytes")
+	} else {
+		evs, _ := extractEvents(c, fn, nil)
+		ok := true
+		n := 0
+		for _, le := range evs {
+			if !le.OK {
+				continue
+			}
+			n++
+			// some branch condition must relate len(data) to the Length byte (d9 or d25)
+			rel := false
+			for _, cnd := range le.Cond {
+				if strings.Contains(cnd, "len(data)") && (strings.Contains(cnd, "d9[") || strings.Contains(cnd, "d25[")) {
+					rel = true
+				}
+			}
+			if !rel {
+				ok = false
+			}
+		}
+		r.Check(ok && n > 0, "ipmi.V1Session.DecodeFromBytes|length validated", fn.Pos(), "len(data) is compared with the length field on every success path", "the payload length field is never compared with the amount of data: a wrapper whose length exceeds the data is accepted")
+	}
+}
+
+// checkMessageChecksums (shared with C10: a reply with a wrong checksum is one that "cannot be
+// decoded" and is retried, whatever else it carries).
+func checkMessageChecksums(c *Ctx, r *Report) {
 	r.Rule("checksums-verified", "every success exit of the message decoder is behind checksum 1 == checksum(bytes 0..1) and checksum 2 == checksum(bytes 3..n-2)", 2)
 	if fn := c.Method("pkg/ipmi", "Message", "DecodeFromBytes"); fn == nil {
 		r.Lost("ipmi.Message.DecodeFromBytes")
@@ -205,34 +241,4 @@ func checkC07(c *Ctx, r *Report) {
 		// and the compared values are the wire's own checksum bytes (layout: Checksum1 = d2, Checksum2 = last byte)
 	}
 
-	// (c') the wrappers and the message layer never read beyond the datagram: a length field exceeding
-	// the data, or a body shorter than the minimum, cannot be decoded (engine E1 on these decoders)
-	checkLenflowFor(c, r, "wrappers-in-bounds", []string{"V2Session", "V1Session", "Message", "SDR", "FullSensorRecord"})
-
-	// (c) session wrapper windows — in the layout table (BaseLayer.Payload); V1: payload window must honour Length
-	r.Rule("v1-length-honoured", "the v1.5 session wrapper rejects a length field that exceeds the data", 1)
-	if fn := c.Method("pkg/ipmi", "V1Session", "DecodeFromBytes"); fn == nil {
-		r.Lost("ipmi.V1Session.DecodeFromBytes")
-	} else {
-		evs, _ := extractEvents(c, fn, nil)
-		ok := true
-		n := 0
-		for _, le := range evs {
-			if !le.OK {
-				continue
-			}
-			n++
-			// some branch condition must relate len(data) to the Length byte (d9 or d25)
-			rel := false
-			for _, cnd := range le.Cond {
-				if strings.Contains(cnd, "len(data)") && (strings.Contains(cnd, "d9[") || strings.Contains(cnd, "d25[")) {
-					rel = true
-				}
-			}
-			if !rel {
-				ok = false
-			}
-		}
-		r.Check(ok && n > 0, "ipmi.V1Session.DecodeFromBytes|length validated", fn.Pos(), "len(data) is compared with the length field on every success path", "the payload length field is never compared with the amount of data: a wrapper whose length exceeds the data is accepted")
-	}
 }
